@@ -59,14 +59,19 @@ fn main() {
             let only = !matches!(mode, Mode::Run);
             let mut ctx = Ctx::new(prop.id, tier, seed(), prop.level, mode);
             // known-finding replays first (only in a normal run)
+            let mut regress_bad = 0;
             if !only {
                 props::replay_known(&prop, tier, seed());
+                let (n, bad) = props::replay_regressions(&prop);
+                regress_bad = bad;
+                ctx.extra.insert("regression_inputs_replayed".into(), serde_json::json!(n));
             }
             (prop.run)(&mut ctx);
             if only {
                 std::process::exit(0);
             }
-            std::process::exit(ctx.finish());
+            let code = ctx.finish();
+            std::process::exit(if regress_bad > 0 { 1 } else { code });
         }
         "replay" => {
             util::install_panic_hook();
